@@ -228,6 +228,14 @@ Definition gen_field (fixed : bool) (f : ifield) : pfield :=
 Definition gen_inputs (fixed : bool) (s : inputs) : list (string * list pfield) :=
   map (fun p => (fst p, map (gen_field fixed) (snd p))) s.
 
+(* the input object types of a type map (Model/Loader.v), in type-map order: what
+   InputTypesGenerator._filter_input_types walks *)
+Definition in_fields (ms : list member) : list ifield :=
+  flat_map (fun m => match m with MIn f => [f] | MOp _ => [] end) ms.
+Definition inputs_of (tm : list (string * tbody)) : inputs :=
+  flat_map (fun nb => if String.eqb (b_kind (snd nb)) "inputobject"
+                      then [(fst nb, in_fields (b_members (snd nb)))] else []) tm.
+
 (* schema built from SDL: every field has its node, and a literal iff a coerced value *)
 Definition wf_field (f : ifield) : bool :=
   if_has_node f &&
